@@ -95,6 +95,8 @@ P2 == [version |-> 1, rows |-> 0, cols |-> <<>>]
 \* the last object is EMPTY: its second header byte is the last byte of the stream and may arrive with EOF
 Pack1 == << <<ObjTypeCommit, EncCommit(C1)>>, <<ObjTypeTable, EncTable(T1)>>, <<ObjTypeBlock, EncBlock(BlkC)>>, <<ObjTypeBlock, <<>>>> >>
 Pack2 == << <<ObjTypeBlock, EncBlock(BlkA)>>, <<ObjTypeCommit, EncCommit(C2)>> >>
+\* an object of more than 1 MiB (one run of 1 310 721 bytes): readers that fetch large objects in steps
+Pack3 == << <<ObjTypeCommit, EncCommit(C1)>>, <<ObjTypeBlock, Run(7, 1310721)>>, <<ObjTypeBlock, EncBlock(BlkA)>> >>
 Pkt1 == <<Ascii("want"), Ascii("have"), <<>>, Run(104, 300), Ascii("done"), <<>>>>   \* ends with a flush-pkt
 Pkt2 == <<Ascii("ack"), <<>>, Ascii("z")>>                                           \* ends with a data line
 
@@ -122,7 +124,9 @@ Streams == <<
   MkStream("blkidx", SegsBlockIndex(X2), 0, <<>>),
   MkStream("uintlist", SegsUintList(U2), 0, <<>>),
   MkStream("strlist", SegsStrList(SL2), 0, <<>>),
-  MkStream("profile", SegsProfile(P2), 0, <<>>)
+  MkStream("profile", SegsProfile(P2), 0, <<>>),
+  \* 19: a packfile with a large object
+  MkStream("packfile", SegsPack(Pack3), 1, PackItems(Pack3))
 >>
 NStreams == Len(Streams)
 GenIds == {c \div 100 : c \in KCodes}
@@ -170,7 +174,9 @@ ChosenSet(k) == {ChosenTab[k][i] : i \in 1..Len(ChosenTab[k])}
 Specials(k) ==
   {{c} : c \in CandSet(k) \ ChosenSet(k)}
   \cup (IF TotalTab[k] >= 2 /\ 1 \notin ChosenSet(k) THEN {{1}} ELSE {})
-  \cup (IF TotalTab[k] >= 2 THEN {1..(TotalTab[k] - 1)} ELSE {})
+  \* all 1-byte reads; for a large stream: reads of 4096 bytes and of 65 535 bytes instead
+  \cup (IF TotalTab[k] >= 2 /\ TotalTab[k] <= 100000 THEN {1..(TotalTab[k] - 1)} ELSE {})
+  \cup (IF TotalTab[k] > 100000 THEN {{c \in 1..(TotalTab[k] - 1) : c % 4096 = 0}, {c \in 1..(TotalTab[k] - 1) : c % 65535 = 0}} ELSE {})
 
 (* ---------------- well-formedness of the universe, lemmas ---------------- *)
 ASSUME StreamsWF ==
